@@ -107,7 +107,7 @@ class Rejection:
         return {'op': e.get('op'), 'reason': self.reason}
 
 
-RELAX_GROUPS = ['live', 'memo', 'value']
+RELAX_GROUPS = ['live', 'memo', 'value', 'acc']
 
 
 def validate_executions(execs, wd, relax=(), oracle=False, batch_lines=4000, jobs=12, timeout=900, max_rejections=8, extra_env=None):
